@@ -270,7 +270,8 @@ def run(ctx):
         ctx.ob("M-BOUNDARY", key, found is not None,
                "prefix test on the bare value of %s is followed by a boundary test on its success edge" % "+".join(owners)
                if found is not None else
-               "prefix test on the bare value of %s decides alone: `/foo` also accepts `/foobar` (no test of the remainder / next char on the success edge)" % "+".join(owners),
+               "prefix test on the bare value of %s decides alone (no test of the remainder / next character on its success edge): "
+               "a value that merely starts with the same text is accepted, e.g. `/foobar` for `/foo`, `org.foobar` for `org.foo`" % "+".join(owners),
                c.where)
 
 
